@@ -315,8 +315,8 @@ def async_cases(draw):
 
 
 def subs(tier):
-    out = [Sub("hooked", cases(), run_case, quick=192, thorough=600, needs=("rel", "h5x"), shrink_budget=30),
-           Sub("async", async_cases(), run_async, quick=32, thorough=200, needs=("rel", "h5x"), shrink_budget=5)]
+    out = [Sub("hooked", cases(), run_case, quick=192, thorough=2400, needs=("rel", "h5x"), shrink_budget=30),
+           Sub("async", async_cases(), run_async, quick=32, thorough=600, needs=("rel", "h5x"), shrink_budget=5)]
     if tier == "thorough":
         out.append(Sub("enumerated", st.just({}), run_case, quick=1, thorough=1, needs=("rel", "h5x"), enum=all_enum))
     return out
